@@ -438,13 +438,27 @@ def explore_sharded(ctx, props, total, salt, focuses=(None,), shards=14):
 
 
 def run_prop(ctx, prop, focuses):
+    if ctx.replay and ctx.replay.get("case", {}).get("kind") == "native-threads":
+        from . import m1_threads
+        out = Result()
+        out.rule = "replay of a native-thread probe case (repeated 5 times: OS scheduling)"
+        m1_threads.probe(ctx, out, {prop}, 5, cases=[ctx.replay["case"]] * 5)
+        return out
     if ctx.replay:
         sc = Scenario.from_json(ctx.replay["case"])
         return explore(ctx, {prop}, 1, "replay", scenarios=[sc])
     if ctx.thorough:
-        return explore_sharded(ctx, {prop}, 60000, "thorough", focuses)
+        out = explore_sharded(ctx, {prop}, 60000, "thorough", focuses)
+        if prop in ("C01", "C04", "C09"):
+            from . import m1_threads
+            m1_threads.probe(ctx, out, {prop}, 80)
+        return out
     rs = [explore(ctx, {prop}, 2400 // len(focuses), f"quick-{f}", f) for f in focuses]
-    return merge(rs)
+    out = merge(rs)
+    if prop in ("C01", "C04", "C09"):
+        from . import m1_threads
+        m1_threads.probe(ctx, out, {prop}, 12)
+    return out
 
 
 def search_prop(ctx, prop, res, focuses):
